@@ -295,7 +295,7 @@ func ruleC01R5(c *Ctx) {
 	c.mustBeforeReturn("C01.R5", cont, entryOf(cont), sD, "continuation destroys every bufferer", "ChunkBufferer.Destroy for each output", cont.Pos(), nil)
 	var onStopped []ssa.CallInstruction
 	for _, s := range callsIn(cont) {
-		if p, ok := resolve(s.Common().Value).(*ssa.Parameter); ok && p.Name() == "onStopped" {
+		if p, ok := resolve(s.Common().Value).(*ssa.Parameter); ok && isPlainCallback(p.Type()) {
 			onStopped = append(onStopped, s)
 		}
 	}
